@@ -59,8 +59,31 @@ func VerifFaults() {
 	fatal := verifrt.Choice("errorOnFSErrors", 2) == 1
 	sizeLimit := verifrt.Choice("sizeLimit", 2) == 1
 
+	// many built-in extractors look at the lazily stat'ed FileInfo in FileRequired (size limits,
+	// executable bits) and decline the file when that Stat fails
+	statInRequired := verifrt.Choice("statInRequired", 2) == 1
+	nex := 1
+	if verifrt.Param("extractors") == 2 {
+		nex = 2
+	}
+
 	fsys := tree()
 	ex := readingExtractor("x")
+	exs := []*fake.Extractor{ex}
+	if nex == 2 {
+		exs = append(exs, readingExtractor("y"))
+	}
+	if statInRequired {
+		for _, e := range exs {
+			e.RequiredAPI = func(api filesystem.FileAPI) bool {
+				if !strings.HasSuffix(api.Path(), ".pkg") {
+					return false
+				}
+				info, err := api.Stat()
+				return err == nil && info.Mode().IsRegular()
+			}
+		}
+	}
 	var injected []fault
 	fsys.Fault = func(op symfs.Op) error {
 		if len(injected) >= maxFaults {
@@ -80,10 +103,12 @@ func VerifFaults() {
 		return err
 	}
 	cfg := &filesystem.Config{
-		Extractors:      []filesystem.Extractor{ex},
 		ScanRoots:       []*scalibrfs.ScanRoot{{FS: fsys}},
 		Stats:           stats.NoopCollector{},
 		ErrorOnFSErrors: fatal,
+	}
+	for _, e := range exs {
+		cfg.Extractors = append(cfg.Extractors, e)
 	}
 	if sizeLimit {
 		cfg.MaxFileSize = 100
@@ -147,15 +172,28 @@ func VerifFaults() {
 			}
 		}
 		if outside {
-			verifrt.Assert(ex.Extracts[p] == 1, "a file outside the failing directory/file is extracted exactly as in a fault-free scan")
-			found := 0
-			for _, pk := range inv.Packages {
-				if pk.Name == "x:"+p {
-					found++
+			for _, e := range exs {
+				verifrt.Assert(e.Extracts[p] == 1, "a file outside the failing directory/file is extracted exactly as in a fault-free scan")
+				found := 0
+				for _, pk := range inv.Packages {
+					if pk.Name == e.ExName+":"+p {
+						found++
+					}
 				}
+				verifrt.Assert(found == 1, "its package is reported exactly once")
 			}
-			verifrt.Assert(found == 1, "its package is reported exactly once")
 		}
+	}
+	verifrt.Assert(len(statuses) == nex, "one status entry per extractor")
+	if nex != 1 {
+		// the status rules are asserted in the one-extractor runs (which extractor owns a shared
+		// open/size failure is not fixed by the property)
+		return
+	}
+	if statInRequired && lazyStat {
+		// the extractor itself declined the file whose Stat failed: it is not a required file
+		verifrt.Reach("declined-after-stat-failure")
+		return
 	}
 	// a failure to open/stat/read a required file shows in the owner's status
 	if len(failingFiles) > 0 && len(statuses) == 1 {
@@ -187,8 +225,13 @@ func VerifExtractorError() {
 		}
 		return yInner(c, in)
 	}
+	// the failing extractor is listed after or before the healthy one
+	order := []filesystem.Extractor{x, y}
+	if verifrt.Choice("failing-extractor-first", 2) == 1 {
+		order = []filesystem.Extractor{y, x}
+	}
 	inv, statuses, err := filesystem.Run(context.Background(), &filesystem.Config{
-		Extractors: []filesystem.Extractor{x, y},
+		Extractors: order,
 		ScanRoots:  []*scalibrfs.ScanRoot{{FS: fsys}},
 		Stats:      stats.NoopCollector{},
 	})
@@ -197,6 +240,10 @@ func VerifExtractorError() {
 	if len(statuses) != 2 {
 		return
 	}
+	if statuses[0].Name != "x" {
+		statuses[0], statuses[1] = statuses[1], statuses[0]
+	}
+	verifrt.Assert(statuses[0].Name == "x" && statuses[1].Name == "y", "one status entry per extractor")
 	nx, ny := 0, 0
 	for _, p := range inv.Packages {
 		if p.Extractor == filesystem.Extractor(x) {
